@@ -24,9 +24,9 @@ CONFIG = {
     'quick': {'shards': 16, 'budget_s': 150, 'n_targets': 2400, 'per_target': 12,
               'floors': {'evaluations': 20000, 'distinct_nontrivial': 5000, 'pairs.compared': 18000, 'pairs.nonempty': 6000,
                          'ops.is_substructure': 3000, 'ops.automorphism': 800, 'opt.scope': 1500, 'patterns.multi-component': 600}},
-    'thorough': {'shards': 16, 'budget_s': 1800, 'n_targets': 8000, 'per_target': 16,
-                 'floors': {'evaluations': 150000, 'distinct_nontrivial': 30000, 'pairs.compared': 120000,
-                            'pairs.nonempty': 40000, 'ops.is_substructure': 20000, 'ops.automorphism': 6000,
+    'thorough': {'shards': 16, 'budget_s': 1800, 'n_targets': 4200, 'per_target': 60,
+                 'floors': {'evaluations': 150000, 'distinct_nontrivial': 40000, 'pairs.compared': 120000,
+                            'pairs.nonempty': 40000, 'ops.is_substructure': 20000, 'ops.automorphism': 3000,
                             'opt.scope': 10000, 'patterns.multi-component': 3000}},
 }
 
